@@ -91,6 +91,7 @@ class AnnounceOracle:
         self.violations = []
         self.probes = {}
         self.states = set()
+        self.answers = []
         self.await_draw = []
         self.order = []  # instances in the order they were registered with the announcer
         self.expect = []  # find answers: dict(p, inst, lo, hi, required, allowed, tf, mc, done)
@@ -370,17 +371,40 @@ class AnnounceOracle:
             else:
                 cause = "unicast-answer-queued-before-stop"
             if x is not None:
-                x["done"] = True
+                x["done"] = x["consumed"] = True
             self.viol("NO-OFFER-AFTER-STOP", f"offer for {ins.key} to {dst[0]} at {T:.6f} after it was stopped at {ins.t_stop}", cause)
             return
         self._content(ins, e, f"find answer to {dst[0]}")
-        if not fit:
-            why = "timing" if cands else "unsolicited"
-            self.viol("ANSWER", f"unicast offer for {ins.key} to {dst[0]} at {T:.6f} matches no pending FindService ({why})", why)
-            return
-        fit.sort(key=lambda x: x["hi"])
-        fit[0]["done"] = True
-        self.probe("find_answered_multicast" if fit[0]["mc"] else "find_answered_unicast")
+        # which request it answers is decided at the end, by matching (see finish())
+        self.answers.append(dict(T=T, inst=ins, p=dst))
+
+    def finish(self):
+        """every unicast offer must answer a distinct pending FindService inside its window, and
+        every FindService that had to be answered must have got one: two bipartite matchings
+        (Mendelsohn-Dulmage: if both exist, one matching does both)"""
+        groups = {}
+        for a in self.answers:
+            groups.setdefault((a["p"], a["inst"].idx), ([], []))[0].append(a)
+        for x in self.expect:
+            if not x["inst"].broken:
+                groups.setdefault((x["p"], x["inst"].idx), ([], []))[1].append(x)
+        for (p, _), (ans, exps) in groups.items():
+            adj = [[j for j, x in enumerate(exps) if x["lo"] - RES <= a["T"] <= x["hi"] + RES and not x.get("consumed")] for a in ans]
+            m_ans = _matching(adj, len(exps))
+            for i, a in enumerate(ans):
+                if m_ans[i] is None:
+                    why = "timing" if exps else "unsolicited"
+                    self.viol("ANSWER", f"unicast offer for {a['inst'].key} to {p[0]} at {a['T']:.6f} answers no pending FindService ({why})", why)
+                else:
+                    self.probe("find_answered_multicast" if exps[m_ans[i]]["mc"] else "find_answered_unicast")
+            req = [j for j, x in enumerate(exps) if x["required"] and not x.get("consumed")]
+            radj = [[i for i, a in enumerate(ans) if j in adj[i]] for j in req]
+            m_req = _matching(radj, len(ans))
+            for n, j in enumerate(req):
+                if m_req[n] is None:
+                    x = exps[j]
+                    self.viol("ANSWER", f"FindService from {p[0]} at {x['tf']:.6f} matching ready instance {x['inst'].key} was not answered by {x['hi']:.6f}", "missing")
+        return self
 
     # ------------------------------------------------------------ C15 accounting
     def on_queue(self, T, remote, ekey):
@@ -445,11 +469,6 @@ class AnnounceOracle:
                     if T > lim + RES:
                         self.viol("ONE-STOPOFFER", f"no StopOffer for {ins.key} by {lim:.6f} after the stop at {st['t']:.6f}", "missing")
                         st["expect"] = "reported"
-        for x in self.expect:
-            if not x["done"] and T > x["hi"] + RES:
-                x["done"] = True
-                if x["required"] and not x["inst"].broken:
-                    self.viol("ANSWER", f"FindService from {x['p'][0]} at {x['tf']:.6f} matching ready instance {x['inst'].key} was not answered by {x['hi']:.6f}", "missing")
         for dst, lst in self.queued.items():
             for x in lst:
                 if not x[2] and T > self.sent_by(x[1]) + RES:
@@ -491,4 +510,25 @@ class AnnounceOracle:
                 self.on_tx(T, data[0], data[1], data[2])
             elif kind == "queue":
                 self.on_queue(T, data[0], data[1])
-        return self
+        return self.finish()
+
+
+def _matching(adj, nright):
+    """maximum bipartite matching; adj[i] = right vertices of left vertex i; -> match of each left vertex or None"""
+    right = [None] * nright
+    left = [None] * len(adj)
+
+    def augment(i, seen):
+        for j in adj[i]:
+            if j in seen:
+                continue
+            seen.add(j)
+            if right[j] is None or augment(right[j], seen):
+                right[j] = i
+                left[i] = j
+                return True
+        return False
+
+    for i in range(len(adj)):
+        augment(i, set())
+    return left
